@@ -318,6 +318,7 @@ def job_gate_run(arg):
                              aggregates=["postal_code", "unit"], client=client)
         except Exception:  # noqa: BLE001
             pass
+    extra = {"fixed_effects": {"county_classification": ["all"]}} if req.get("fe") else {}
     with SplitRecorder() as rec:
         try:
             synth.run_client(
@@ -330,6 +331,7 @@ def job_gate_run(arg):
                 features=setup["features"],
                 model_parameters=dict(setup["mp"]),
                 aggregates=["postal_code", "unit"],
+                **extra,
             )
             outcome = "done"
         except ModelNotEnoughSubunitsException:
